@@ -107,6 +107,13 @@ def main():
         for b in bad:
             print(b)
         sys.exit(1 if bad else 0)
+    if len(sys.argv) > 1 and sys.argv[1] == 'mssmflags':
+        from . import C15e
+        bad, n = C15e.native_mssm_force_probe()
+        print('%d runs of the real program on a tachyonic point (force_output 0/1)' % n)
+        for b in bad:
+            print(b)
+        sys.exit(1 if bad else 0)
     if len(sys.argv) > 1 and sys.argv[1] == 'fill':
         from . import C15d
         from .common import harness_native
